@@ -67,11 +67,90 @@ def plan(tier):
     return out
 
 
+REAL_SCRIPT = r"""
+import sys, json, logging, threading
+logging.disable(logging.CRITICAL)
+from valjean.cosette.task import Task, TaskStatus
+from valjean.cosette.depgraph import DepGraph
+from valjean.cosette.scheduler import Scheduler
+from valjean.cosette.backends.queue import QueueScheduling
+from valjean.cosette.env import Env
+cfg = json.loads(sys.argv[1])
+class Probe(Task):
+    def __init__(self, name, outcome):
+        super().__init__(name); self.outcome = outcome
+    def do(self, env, config):
+        out = self.outcome
+        upd = {self.name: {'payload': 1}}
+        if out == 'ok': return upd, TaskStatus.DONE
+        if out == 'fail': return upd, TaskStatus.FAILED
+        if out == 'raise': raise RuntimeError('boom')
+        if out == 'none': return None
+        if out == 'notpair': return 42
+        if out == 'badstatus': return upd, 'foo'
+        if out == 'badupdate': return 42, TaskStatus.DONE
+        return upd, TaskStatus.DONE, 0
+tasks = [Probe('t%d' % i, o) for i, o in enumerate(cfg['outcomes'])]
+hard, soft = DepGraph(), DepGraph()
+for t in tasks:
+    hard.add_node(t); soft.add_node(t)
+for i, j, k in cfg['edges']:
+    (hard if k == 'h' else soft).add_dependency(tasks[i], on=tasks[j])
+env = Env()
+for i, st, _ in cfg.get('init', []):
+    env['t%d' % i] = {'status': TaskStatus[st]}
+try:
+    Scheduler(hard_graph=hard, soft_graph=soft, backend=QueueScheduling(cfg['workers'])).schedule(env=env)
+    print('returned')
+except Exception as exc:
+    print('raised', type(exc).__name__)
+print('threads', [t.name for t in threading.enumerate() if t is not threading.main_thread()])
+"""
+
+
+def real_thread_runs(rep, tier):
+    """Free-running confirmation: the same driver on real threads in a separate interpreter must come back AND the
+    interpreter must exit (leaked non-daemon workers only show at exit).  Not the deciding step."""
+    import json
+    import subprocess
+    import sys
+    cfgs = [C.cfg(2, C.CHAIN2, ['ok', 'ok'], 3), C.cfg(2, CYC2, ['ok', 'ok'], 2, cyclic=True), C.cfg(2, CYC2SOFT, ['ok', 'ok'], 3, cyclic=True),
+            C.cfg(1, SELF, ['ok'], 1, cyclic=True), C.cfg(2, C.CHAIN2, ['notpair', 'ok'], 2), C.cfg(2, C.CHAIN2, ['badupdate', 'ok'], 1),
+            C.cfg(2, C.CHAIN2S, ['raise', 'triple'], 2), C.cfg(2, C.CHAIN2, ['ok', 'ok'], 2, init=[(0, 'FAILED', False)]),
+            C.cfg(3, C.JOIN3HS, ['fail', 'none', 'ok'], 3), C.cfg(3, TAIL, ['ok'] * 3, 2, cyclic=True)]
+    procs = [(cfg, subprocess.Popen([sys.executable, '-W', 'ignore', '-c', REAL_SCRIPT, json.dumps(cfg)], stdout=subprocess.PIPE,
+                                    stderr=subprocess.DEVNULL, text=True)) for cfg in cfgs]
+    for cfg, proc in procs:
+        try:
+            out, _ = proc.communicate(timeout=20)
+            outcome = (out.split() or ['no-output'])[0]
+            alive = 'threads []' not in out
+        except subprocess.TimeoutExpired:
+            proc.kill()
+            proc.communicate()
+            outcome, alive = 'timeout', True
+        rep.case(nontrivial=('real', json.dumps(cfg, sort_keys=True)), outcome=('real-threads', outcome))
+        rep.counters['real_thread_process_runs'] += 1
+        if outcome == 'timeout':
+            rep.violate('C03|real-threads|process-does-not-exit', f'real threads, {cfg}: schedule() did not come back or the interpreter could not exit within 20 s',
+                        {'config': cfg, 'mode': 'real-threads'})
+        elif alive:
+            rep.violate('C03|real-threads|threads-alive-at-return', f'real threads, {cfg}: threads alive after schedule() came back: {out}',
+                        {'config': cfg, 'mode': 'real-threads'})
+
+
 def run(tier, seed):
-    return check.run_configs('C03', plan(tier), seed, 150 if tier == 'quick' else 3000)
+    rep = check.run_configs('C03', plan(tier), seed, 150 if tier == 'quick' else 3000)
+    real_thread_runs(rep, tier)
+    return rep
 
 
 def replay(case):
+    if case.get('mode') == 'real-threads':
+        from ..core.report import Report
+        rep = Report()
+        real_thread_runs(rep, 'quick')
+        return {'problems': {k: v[0] for k, v in rep.violations.items()}, 'violates': bool(rep.violations)}
     return check.replay(case)
 
 
